@@ -163,23 +163,41 @@ def _flag_env_eval(e, env: Dict[str, bool]) -> Optional[bool]:
     return None
 
 
-def r18d(run):
+def union_stages(run):
+    """staged retries of the union branch, discovered from the child contexts entered with explicit options:
+    [(enter node, options text, flags set True, flags set to something else, other keywords)]"""
     f = run.repo.func("utype.parser.rule", "LogicalType.logical_parse")
     fa = analysis(f)
     FLAGS = ("no_data_loss", "no_explicit_cast")
-    # staged option objects: X = <anything>.Options(flag=True, ...)
-    stages = {}
-    for n in fa.cfg.nodes:
-        if n.kind == "stmt" and isinstance(n.ast, ast.Assign) and isinstance(n.ast.value, ast.Call) \
-                and call_attr(n.ast.value) == "Options" and isinstance(n.ast.targets[0], ast.Name):
-            fl = {k.arg for k in n.ast.value.keywords if k.arg in FLAGS and isinstance(k.value, ast.Constant)
-                  and k.value.value is True}
-            extra = [k.arg for k in n.ast.value.keywords if k.arg not in FLAGS]
-            stages[n.ast.targets[0].id] = (n, fl, extra)
-    run.floor("R18d", "staged retry option sets in the union branch", len(stages), 2)
-    for var, (n, fl, extra) in sorted(stages.items()):
-        if branch_of(fa, n) != "|":
+    out = []
+    for n, c in fa.all_calls():
+        if call_attr(c) != "enter" or kwarg(c, "options") is None or branch_of(fa, n) != "|":
             continue
+        o = kwarg(c, "options")
+        ctor = None
+        if isinstance(o, ast.Call):
+            ctor = o
+        elif isinstance(o, ast.Name):
+            if o.id in fa.rd.locals:
+                cs = [x.node for x in prov(fa).of_name(n, o.id) if x.kind == "call"]
+                ctor = cs[0] if len(cs) == 1 else None
+            else:
+                v = f.module.assigns.get(o.id)
+                ctor = v if isinstance(v, ast.Call) else None
+        if ctor is None or call_attr(ctor) != "Options":
+            raise AnalysisError(f"R18d: cannot resolve the options `{unparse(o)}` of a union stage to an Options(...) call")
+        fl = {k.arg for k in ctor.keywords if k.arg in FLAGS and isinstance(k.value, ast.Constant) and k.value.value is True}
+        lowered = [k.arg for k in ctor.keywords if k.arg in FLAGS and not (isinstance(k.value, ast.Constant) and k.value.value is True)]
+        extra = [k.arg for k in ctor.keywords if k.arg not in FLAGS]
+        out.append((n, unparse(o), fl, lowered, extra))
+    return f, fa, out
+
+
+def r18d(run):
+    FLAGS = ("no_data_loss", "no_explicit_cast")
+    f, fa, stages = union_stages(run)
+    run.floor("R18d", "staged retries (child contexts with explicit options) in the union branch", len(stages), 2)
+    for n, var, fl, lowered, extra in stages:
         guards = [b for b in fa.facts.branch_facts(n) if any(opt_attr(x) in FLAGS for x in ast.walk(b.test))]
         ok = bool(guards)
         detail = []
@@ -201,13 +219,12 @@ def r18d(run):
                           f"{sorted(fl)} set: " + ("no guard on the flags" if not guards else "; ".join(detail)),
                   necessity="a union nested inside a union re-runs the strict stages at every level: the number of "
                             "conversions multiplies per nesting level (exponential in depth)", node=n.ast)
-        # the stage's child contexts are entered with exactly these options
-        used = [c for nn, c in fa.all_calls() if call_attr(c) == "enter" and kwarg(c, "options") is not None
-                and unparse(kwarg(c, "options")) == var]
-        run.check("R18d", f, f"stage `{var}` enters its child contexts with these options", bool(used),
-                  construct=f"stage {var} options unused", message=f"`{var}` is built but no child context uses it")
-        run.check("R18d", f, f"stage `{var}` sets only conversion flags", not extra, construct=f"stage {var} extra options",
-                  message=f"`{var}` also sets {extra}")
+        run.check("R18d", f, f"stage `{var}` only raises conversion flags", not extra and not lowered and bool(fl),
+                  construct=f"stage {var} lowers or adds options",
+                  message=f"`{var}` sets {lowered + extra} besides raising {sorted(fl)}: merged into the child context it "
+                          f"overrides what the caller asked for",
+                  necessity="Options(no_explicit_cast=True) on the caller is switched off inside the stage: a str is cast "
+                            "to int for Union / Optional targets although the plain target refuses it", node=n.ast)
     # a final unguarded common stage exists
     conv = [(n, c) for n, c in fa.all_calls() if is_convert_call(fa, n, c) and branch_of(fa, n) == "|"]
     unguarded = [n for n, c in conv if not any(opt_attr(x) in FLAGS for b in fa.facts.branch_facts(n)
